@@ -174,8 +174,21 @@ func main() {
 	if p.Setup != nil {
 		p.Setup()
 	}
+	// journal of the case in flight: if the process dies inside Exec (a crash of the library on
+	// another goroutine, runaway allocation, a kill after a timeout) the driver finds the input
+	// that was being executed in <out>.inflight and reports it as the failing case
+	inflight := ""
+	if *out != "" {
+		inflight = *out + ".inflight"
+	}
 	run := func(in Fields) {
+		if inflight != "" {
+			os.WriteFile(inflight, []byte(in.String()+"\n"), 0o644)
+		}
 		obs := p.Exec(in)
+		if inflight != "" {
+			os.Remove(inflight)
+		}
 		fmt.Fprintf(w, "%s | %s\n", in.String(), obs.String())
 		w.Flush() // a run cut short by a timeout still leaves every finished case behind
 		if p.Class != nil {
